@@ -1993,6 +1993,20 @@ def run_C13(pid, tier, seed, model_ok=True):
         header = ctx.header()
         model, impl, extras = run_both(header, hs_both, work, impl_only=not model_ok)
         _, impl2, extras2 = run_both(header, hs_impl, work + 'b', impl_only=True)
+        # what the library WRITES: after every call of damage-free walks (failures, restarts, updates: bans, queues of events,
+        # records with and without signature) the bytes of both state files must be exactly what the model of the writer
+        # (JsonWrite.v) writes for the state the model's reader reads from them
+        ncanon, canon_bad = 0, []
+        if model_ok:
+            cw = gen.random_walks(al, ['q', 's', 'ok', 'fail', 'fail', 'R', 'R', 'u1', 'u2', 'u3', 'rb1', 'rb12', 'ck2', 'upnone', 'uperr', 'udl2', 'RV'], [1] * 17,
+                                  40 if tier == 'quick' else 1200, (10, 40), rnd, name='cw')
+            alk = gen.Alphabet(ctx, key=KEY1)
+            cw += gen.random_walks(alk, ['q', 's', 'ok', 'fail', 'R', 'u1', 'u2', 'u3', 'rb1', 'upnone'], [1] * 10, 15 if tier == 'quick' else 300, (8, 25), rnd, name='cwk')
+            del RAW_FILES[:]
+            _, _, exc = run_both(header + ['rawfiles on'], cw, work + 'c', impl_only=True)
+            extras2 += [x for x in exc if 'PANIC-HOOK' in x or 'CRASH' in x]
+            ncanon, canon_bad = canonical_files_check(list(RAW_FILES))
+            del RAW_FILES[:]
         # the extracted readers against the kernel's own evaluation of the same Gallina terms, on the texts of this run
         nxc, xcp = (0, [])
         if model_ok:
@@ -2006,6 +2020,8 @@ def run_C13(pid, tier, seed, model_ok=True):
         if model_ok:
             for (h, idx, ml, il) in diff_traces(model, impl):
                 divs.append((h, idx, ml, il, opsof[h], header))
+        for k, got, want in canon_bad[:5]:
+            divs.append(('written_%s' % k, 0, 'the model of the writer writes (hex): ' + want[:600], 'the library wrote (hex): ' + got[:600], ['canon %s f %s' % (k, got)], []))
         evals = 0
         distinct = set()
         for name, ops in hs_both + hs_impl:
@@ -2035,7 +2051,7 @@ def run_C13(pid, tier, seed, model_ok=True):
         samples = [{'history': hs_impl[0][0], 'ops': [o[:100] for o in hs_impl[0][1][:8]]}, {'history': hs_both[0][0], 'ops': [o[:100] for o in hs_both[0][1][:6]]}]
         return dict(evaluations=evals, distinct=len(distinct), samples=samples, divergences=divs, monitor_fail=fails,
                     rule='malformed state.json / patches_state.json (typed mutants, truncation, byte noise, huge values), files where directories are expected and vice versa, malformed YAML, extreme patch numbers / hashes / downloads, unconformant random call orders incl. calls before init; a panic hook on every thread + process exit status; every output checked against its documented domain; non-trivial = distinct (call, output, state-file kind)',
-                    dist={'malformed_histories': len(hs_impl), 'model_compared_histories': len(hs_both), 'state_json_texts_compared': len(stexts), 'extraction_equations_checked_in_the_kernel': nxc, 'patches_state_json_texts_compared': len(texts),
+                    dist={'malformed_histories': len(hs_impl), 'model_compared_histories': len(hs_both), 'state_json_texts_compared': len(stexts), 'extraction_equations_checked_in_the_kernel': nxc, 'distinct_state_files_written_by_the_library_checked_against_the_writer_model': ncanon, 'patches_state_json_texts_compared': len(texts),
                           'histories_the_model_cannot_represent_(foreign platform in a stored event)': len(set(UNREP_SKIPPED))}, extras=extras, traces=len(impl) + len(impl2))
     finally:
         ctx.cleanup()
